@@ -101,9 +101,9 @@ Inductive rname := RLit (a : addr) | RHost (id : Z).
 Inductive hresp := HFixed (len seed : Z) | HRedirect (target : list Z) | HContent (size seed : Z).
 Record http := mkHttp {
   hs_node : Z; hs_buf : list Z; hs_bufsize : Z; hs_close : bool; hs_keep : bool;
-  hs_handlers : list (list Z * hresp); hs_stall : list (list Z)
+  hs_handlers : list (list Z * hresp); hs_stall : list (list Z); hs_stalled : bool
 }.
-#[export] Instance eta_http : Settable _ := settable! mkHttp <hs_node; hs_buf; hs_bufsize; hs_close; hs_keep; hs_handlers; hs_stall>.
+#[export] Instance eta_http : Settable _ := settable! mkHttp <hs_node; hs_buf; hs_bufsize; hs_close; hs_keep; hs_handlers; hs_stall; hs_stalled>.
 
 Inductive uop :=
 | UPost (h : Z)
@@ -162,6 +162,7 @@ Inductive uop :=
 | USocksStop (srv : Z)
 | USocksCounts (srv : Z)
 | USocksBindStart (srv port : Z)
+| UUdpSendBytes (s : Z) (data : list Z) (dst : endpoint)
 | UTcpWriteBytes (s : Z) (data : list Z) (h : Z)
 | UTcpReadRaw (s bufsize h : Z) (loop : bool).     (* loop: re-issued after every successful completion *)                    (* async_read_some whose handler also reports the bytes *)   (* async_write_some of explicit bytes *)                 (* verification hook: simulation::verif_set_next_bind_port *)
 
@@ -178,9 +179,10 @@ Record proxy := mkProxy {
 (* sim::socks_server and its connections *)
 Record sconn := mkSconn {
   sc_cmd : Z; sc_buf : list Z;                    (* m_command; the bytes of m_out_buffer that were read as protocol messages *)
-  sc_want : Z; sc_off : Z; sc_got : list Z; sc_next : Z   (* the asio::async_read in progress: size, offset in m_out_buffer, received, continuation *)
+  sc_want : Z; sc_off : Z; sc_got : list Z; sc_next : Z;  (* the asio::async_read in progress: size, offset in m_out_buffer, received, continuation *)
+  sc_udp_ep : endpoint                             (* m_udp_associate_ep: where the client's datagrams come from *)
 }.
-#[export] Instance eta_sconn : Settable _ := settable! mkSconn <sc_cmd; sc_buf; sc_want; sc_off; sc_got; sc_next>.
+#[export] Instance eta_sconn : Settable _ := settable! mkSconn <sc_cmd; sc_buf; sc_want; sc_off; sc_got; sc_next; sc_udp_ep>.
 Record socks := mkSocks {
   so_node : Z; so_version : Z; so_flags : Z; so_bind_port : Z; so_counts : list Z; so_nconn : Z; so_close : bool;
   so_conns : zmap sconn
